@@ -12,7 +12,15 @@ func (self Compiler) CurrFn() *Function { return self.modules[self.currModule][s
 
 func (self Compiler) currLoop() Loop { return self.loops[len(self.loops)-1] }
 func (self *Compiler) pushLoop(l Loop) {
+	l.tryDepth = self.tryDepth
 	self.loops = append(self.loops, l)
+}
+
+// Inserts `count` instructions which unregister the innermost exception handlers.
+func (self *Compiler) popTryLabels(count uint, span errors.Span) {
+	for i := uint(0); i < count; i++ {
+		self.insert(newPrimitiveInstruction(Opcode_PopTryLabel), span)
+	}
 }
 func (self *Compiler) popLoop() {
 	self.loops = self.loops[:len(self.loops)-1]
